@@ -63,6 +63,8 @@ func TestCheck(t *testing.T) {
 			"too few changes of the global burst alone (qps unchanged) followed by reports")
 		r.Require(r.Counter("sys_histories_on_the_api_backed_store") >= 100 && r.Counter("sys_schemas_with_limit_near_int32_range") >= 40 && r.Counter("sys_schemas_with_limit_above_2_pow_30") >= 40 && r.Counter("sys_reports_with_limit_above_2_pow_30") >= 1500, "too few histories on the API-backed store / with very large limits")
 		r.Require(r.Counter("sys_histories_over_http") >= 100 && r.Counter("sys_reports_over_http") >= 3000, "too few reports delivered over HTTP through the real dispatcher")
+		r.Require(r.Counter("reinit_premise_not_met") == 0 && !bed.PremiseBroken(),
+			"a server's store held state that did not come through that server, or a regained shard / re-created upstream did not start empty (C13's / C19's clause): the histories built on it give no verdict")
 		r.Require(r.Counter("sys_report_errors") == 0, "reports were refused by the server (harness/server set-up problem)")
 	})
 }
@@ -466,6 +468,18 @@ type history struct {
 	pendingOld *schema
 }
 
+// viol records a violation - unless the premise the history rests on is broken (bed.StoreHasForeignUpstreams: the server's store
+// holds state that did not come through this server, e.g. because stores are shared between servers or survive a loss of
+// leadership - C13's statement): then the history is abandoned without a verdict.
+func (h *history) viol(sig, what string, witness interface{}) {
+	if bed.StoreHasForeignUpstreams(h.srv) {
+		h.dead = true
+		h.r.Count("reinit_premise_not_met", 1)
+		return
+	}
+	h.r.Violation(sig, what, witness)
+}
+
 // sc: scenario class; histories on the API-backed (write-through) store are a class of their own.
 func (h *history) sc(base string) string {
 	if h.apiStore {
@@ -585,7 +599,7 @@ func (h *history) send(w *gw, cond *proxyv1alpha1.RateLimitCondition, recs []rep
 		p = vkit.Safely(func() { ans, err = h.srv.Limiter.UpdateRateLimitConditionStatus(h.upstream, cond) })
 	}
 	if p != nil {
-		h.r.Violation("C07/system/panic", fmt.Sprintf("UpdateRateLimitConditionStatus panicked: %v", p), h.witness(map[string]interface{}{"report": recs, "panic": fmt.Sprint(p)}))
+		h.viol("C07/system/panic", fmt.Sprintf("UpdateRateLimitConditionStatus panicked: %v", p), h.witness(map[string]interface{}{"report": recs, "panic": fmt.Sprint(p)}))
 		return nil
 	}
 	if err != nil || ans == nil {
@@ -619,7 +633,7 @@ func (h *history) violate(f Finding, before record, s *schema, current int64, ex
 	if h.everBig {
 		sig += "/int32-range" // limits in the upper half of the int32 range: sums of quotas pass 2^31
 	}
-	h.r.Violation(sig,
+	h.viol(sig,
 		fmt.Sprintf("schema %s (%s, global limit %d): %s", s.Name, s.kind(), s.Limit, f.What), h.witness(extra))
 }
 
@@ -696,7 +710,7 @@ func (h *history) consistency(after record, w *gw, rc reportRec, s *schema) {
 	}
 	if got := after.per[w.id][rc.Schema]; got != int64(rc.Answer) {
 		h.dead = true
-		h.r.Violation("C07/"+h.sc("system")+"/record-differs-from-answer", fmt.Sprintf("schema %s: instance %s was answered %d but %d is on record", rc.Schema, w.id, rc.Answer, got), h.witness(nil))
+		h.viol("C07/"+h.sc("system")+"/record-differs-from-answer", fmt.Sprintf("schema %s: instance %s was answered %d but %d is on record", rc.Schema, w.id, rc.Answer, got), h.witness(nil))
 	}
 	// The recorded sum is an int32 field of the API type. With a limit at the top of that range the quotas on record can sum
 	// to more than it can hold (limit fully allocated + the minimum quota 1 of further instances): then the only value that
@@ -715,7 +729,7 @@ func (h *history) consistency(after record, w *gw, rc reportRec, s *schema) {
 		if h.lapsing {
 			sig += "/instance-lapsed-not-yet-reclaimed"
 		}
-		h.r.Violation(sig, fmt.Sprintf("schema %s: the upstream state records an allocated sum of %d, the quotas on record sum to %d", rc.Schema, after.status[rc.Schema], after.sum[rc.Schema]), h.witness(nil))
+		h.viol(sig, fmt.Sprintf("schema %s: the upstream state records an allocated sum of %d, the quotas on record sum to %d", rc.Schema, after.status[rc.Schema], after.sum[rc.Schema]), h.witness(nil))
 	}
 }
 
@@ -856,7 +870,7 @@ func (h *history) reportConcurrently(ws []*gw, racingLimitChange ...bool) {
 			if h.everBig {
 				csig += "/int32-range"
 			}
-			h.r.Violation(csig,
+			h.viol(csig,
 				fmt.Sprintf("schema %s (global limit %d): %d concurrent reports took the sum on record from %d to %d; no serial order of reports that each respect the limit can exceed %d (max(sum before, limit) + %d new instances answered the minimum 1)",
 					s.Name, L, len(ws), before.sum[s.Name], after.sum[s.Name], bound, joins1[s.Name]), h.witness(nil))
 		}
@@ -1166,7 +1180,7 @@ func system(r *vkit.R) {
 		defer vkit.Sched.Disable()
 	}
 	r.Parallel(n, 16, func(i int, g *vkit.Rand) {
-		h := &history{r: r, g: g, upstream: fmt.Sprintf("up%d", i%7), scenario: "system", realIDs: i%4 == 1}
+		h := &history{r: r, g: g, upstream: fmt.Sprintf("up%d", i), scenario: "system", realIDs: i%4 == 1}
 		o := bed.LimiterOptions{LeadAll: true, Shards: 1 + i%3}
 		if i%6 == 4 { // the API-backed store, write-through (every save goes to the API and a COPY of what the API returns is kept)
 			o.Store, o.GatewayClient = "k8s", gatewayfake.NewSimpleClientset()
